@@ -544,7 +544,7 @@ class MathMixin(object):
                     # This is a sibling dictionary. Add it to the list of variables to sample.
                     for k in entry:
                         variables.append(k)
-                        if entry[k] == '':
+                        if entry[k].strip() == '':
                             raise MissingInput('Cannot grade answer, a required input is missing.')
                         sample_from_dict[k] = DependentSampler(formula=entry[k])
                     break
